@@ -1402,6 +1402,14 @@ func genDecHist(emit func(string), tier string, rng *Rng) {
 	if tier == "thorough" {
 		scale = 20
 	}
+	// Reset onto reader 1, now and then with another read buffer size than the decoder had (the buffer is re-sliced when the
+	// old capacity suffices, re-allocated otherwise: sizes just above the previous one, below the minimum, far larger)
+	rst1 := func() string {
+		if rng.Intn(3) == 0 {
+			return fmt.Sprintf("rst1/%d", []int{0, 1, 764, 765, 766, 1000, 1531, 4096, 4097, 4608, 4861, 5000, 9000, 70000}[rng.Intn(14)])
+		}
+		return "rst1"
+	}
 	consume := []string{"dec", "decx", "dis", "pkh,dec", "pki,dec", "pki,dis", "pkh,dis", "nxt,dec", "nxt,pki,dis", "pki,pki,dec", "pkh,pki,dis", "decx:99", "pki,decx:99"}
 	for i := 0; i < 6000*scale; i++ {
 		opt, fac := dapiOptString(rng), dapiFacString(dapiRandFactory(rng))
@@ -1434,11 +1442,11 @@ func genDecHist(emit func(string), tier string, rng *Rng) {
 			if rng.Bool() {
 				ops = append(ops, []string{"pki", "pkh", "dec", "decc", "pki,decc"}[rng.Intn(5)])
 			}
-			ops = append(ops, "rst1")
+			ops = append(ops, rst1())
 		case 1: // failed decode on the first reader, then reset
 			bad := mutate(rng, dapiRandSeq(rng, 0, true))
 			streams = [][]byte{bad, s}
-			ops = []string{[]string{"dec", "pki", "pki,dec", "dis"}[rng.Intn(4)], "rst1"}
+			ops = []string{[]string{"dec", "pki", "pki,dec", "dis"}[rng.Intn(4)], rst1()}
 		}
 		last := []string{"dec", "decx", "pki,dec", "pkh,dec", "nxt,dec", "dec,dec"}[rng.Intn(6)]
 		if rng.Intn(6) == 0 { // S decoded under a context that is cancelled on the way (or too late)
